@@ -285,6 +285,84 @@ def r_pickler_name(e, R):
     R.floor("R-PICKLER-NAME", 5)
 
 
+def r_pickler_select(e, R):
+    """R-PICKLER-SELECT: which pickler set_loky_pickler installs, and that the pickler it builds honours loky's and the queue's reducers."""
+    from . import scenario as SC
+    sl = e.prog.func(f"{RD}:set_loky_pickler")
+    g = e.cfg(sl)
+    p0 = sl.params[0]
+    cur = "_loky_pickler_name"
+
+    def cmp_ev(kind, val):
+        def ev(x):
+            if isinstance(x, ast.Compare) and len(x.ops) == 1 and isinstance(x.left, ast.Name) and x.left.id == p0:
+                op, r = x.ops[0], x.comparators[0]
+                if kind == "same" and isinstance(op, (ast.Eq, ast.NotEq)) and isinstance(r, ast.Name) and r.id == cur:
+                    return val == isinstance(op, ast.Eq)
+                if kind == "cloud" and isinstance(op, (ast.Eq, ast.NotEq)) and isinstance(r, ast.Constant) and r.value == "cloudpickle":
+                    return val == isinstance(op, ast.Eq)
+                if kind == "empty" and isinstance(op, (ast.In, ast.NotIn)) and isinstance(r, (ast.List, ast.Tuple, ast.Set)):
+                    return val == isinstance(op, ast.In)
+                if kind == "none" and isinstance(op, (ast.Is, ast.IsNot)) and isinstance(r, ast.Constant) and r.value is None:
+                    return val == isinstance(op, ast.Is)
+            return None
+        return ev
+    gstores = lambda n: n.kind == "stmt" and isinstance(n.ast, ast.Assign) and isinstance(n.ast.targets[0], ast.Name) and n.ast.targets[0].id in ("_LokyPickler", cur) \
+        and n.ast.targets[0].id in sl.globals_decl
+    imp = lambda n: any(norm(c.func).endswith("import_module") and c.args and isinstance(c.args[0], ast.Name) and c.args[0].id == p0 for c in calls_in(n))
+    envset = lambda n: n.kind == "stmt" and isinstance(n.ast, ast.Assign) and isinstance(n.ast.targets[0], ast.Name) and n.ast.targets[0].id == p0 \
+        and isinstance(n.ast.value, ast.Name) and "ENV" in n.ast.value.id.upper()
+    dflt = lambda n: n.kind == "stmt" and isinstance(n.ast, ast.Assign) and isinstance(n.ast.targets[0], ast.Name) and n.ast.targets[0].id == p0 \
+        and isinstance(n.ast.value, ast.Constant) and n.ast.value.value == "cloudpickle"
+    other = [cmp_ev("none", False), cmp_ev("empty", False), cmp_ev("same", False), cmp_ev("cloud", False)]
+    SC.must(e, R, "R-PICKLER-SELECT", sl, "another pickler module is named", [], imp, "imports that module's Pickler", "the named pickler is ignored", evaluators=other)
+    SC.must(e, R, "R-PICKLER-SELECT", sl, "another pickler module is named", [], gstores, "installs the new pickler class and its name", "the selection has no effect", evaluators=other)
+    SC.never(e, R, "R-PICKLER-SELECT", sl, "the named pickler is the current one", [], gstores, "a rebuild of the pickler class",
+             "every task rebuilds the pickler class (and, inverted, a *different* name is what gets skipped: the selection never changes)",
+             evaluators=[cmp_ev("none", False), cmp_ev("empty", False), cmp_ev("same", True)])
+    SC.must(e, R, "R-PICKLER-SELECT", sl, "no name is given", [], envset, "falls back to the LOKY_PICKLER environment setting", "LOKY_PICKLER is ignored",
+            evaluators=[cmp_ev("none", True)])
+    SC.never(e, R, "R-PICKLER-SELECT", sl, "a name is given", [], envset, "the environment fallback", "an explicit choice is overridden by LOKY_PICKLER",
+             evaluators=[cmp_ev("none", False)])
+    SC.must(e, R, "R-PICKLER-SELECT", sl, "the name is empty", [], dflt, "defaults to cloudpickle", "an empty LOKY_PICKLER selects no pickler",
+            evaluators=[cmp_ev("empty", True)])
+    SC.never(e, R, "R-PICKLER-SELECT", sl, "a non-empty name is given", [], dflt, "the cloudpickle default", "the named pickler is replaced by cloudpickle",
+             evaluators=[cmp_ev("none", False), cmp_ev("empty", False)])
+    SC.never(e, R, "R-PICKLER-SELECT", sl, "cloudpickle is named", [], imp, "an import of a module called like the name",
+             "cloudpickle's Pickler class (not CloudPickler) would be used", evaluators=[cmp_ev("none", False), cmp_ev("empty", False), cmp_ev("same", False), cmp_ev("cloud", True)])
+    # the pickler class: its table = copy + loky's registered reducers + the queue's reducers
+    pc = pickler_class(e)
+    ini = pc.methods["__init__"]
+    reg = pc.methods.get("register")
+    ig = e.cfg(ini)
+    upd = lambda n: any(isinstance(c.func, ast.Attribute) and c.func.attr == "update" and c.args and isinstance(c.args[0], ast.Name) and c.args[0].id == "_dispatch_table"
+                        for c in calls_in(n))
+    setdt = lambda n: any(isinstance(c.func, ast.Attribute) and c.func.attr == "_set_dispatch_table" for c in calls_in(n))
+    regc = lambda n: any(reg is not None and reg.qualname in e.callees_of(c) for c in calls_in(n))
+    for what, pr, why in (("adds loky's module-level reducers (register())", upd, "reducers registered with loky.backend.reduction.register are ignored by every queue"),
+                          ("installs the private table on the pickler", setdt, "the pickler keeps the shared class-level table")):
+        esc = ig.escape_path(ig.entry, pr, use_exc=False)
+        R.check(esc is None and any(pr(n) for n in ig.nodes), "R-PICKLER-SELECT", f"{ini.short}: {what} on every path", ini.short, what, why, e.loc(ini, ini.node))
+    redp = ini.params[2] if len(ini.params) > 2 else None
+    if redp is None:
+        raise AnalysisError("pickler class: reducers parameter not found")
+    loops = [n for n in func_nodes(ini) if isinstance(n, ast.For) and isinstance(n.iter, ast.Call) and isinstance(n.iter.func, ast.Attribute) and n.iter.func.attr == "items"
+             and isinstance(n.iter.func.value, ast.Name) and n.iter.func.value.id == redp
+             and any(isinstance(c, ast.Call) and reg is not None and reg.qualname in e.callees_of(c) for c in ast.walk(n))]
+    reach = ig.find_path(ig.entry, regc, use_exc=False, edge_ok=SC.Facts([(SC.name(redp), "some")]).edge_ok())
+    R.check(bool(loops) and reach is not None, "R-PICKLER-SELECT", f"{ini.short}: registers every reducer of the queue on this pickler", ini.short,
+            f"for type, reduce_func in {redp}.items(): self.register(type, reduce_func)", "job_reducers / result_reducers are silently ignored", e.loc(ini, ini.node))
+    if reg is None:
+        raise AnalysisError("pickler class: register() not found")
+    rg = e.cfg(reg)
+    st = lambda n: n.kind == "stmt" and isinstance(n.ast, ast.Assign) and isinstance(n.ast.targets[0], ast.Subscript) and norm(n.ast.targets[0].value).endswith("dispatch_table") \
+        and isinstance(n.ast.targets[0].slice, ast.Name) and n.ast.targets[0].slice.id == reg.params[1] and isinstance(n.ast.value, ast.Name) and n.ast.value.id == reg.params[2]
+    R.check(rg.escape_path(rg.entry, st, use_exc=False) is None and any(st(n) for n in rg.nodes), "R-PICKLER-SELECT",
+            f"{reg.short}: stores the reducer for the type in this pickler's table", reg.short, "self.dispatch_table[type] = reduce_func",
+            "per-queue reducers are accepted and dropped", e.loc(reg, reg.node))
+    R.floor("R-PICKLER-SELECT", 12)
+
+
 def r_reduce_arity(e, R):
     reg = e.prog.func(f"{RD}:register")
     n_red = 0
@@ -409,7 +487,35 @@ def r_wrap_dispatch(e, R):
                                  and any(isinstance(x, ast.Starred) for x in n.value.args) and any(k.arg is None for k in n.value.keywords) for n in func_nodes(cm))
     R.check(okf, "R-WRAP-DISPATCH", "the callable wrapper forwards the call unchanged", cw.name, "return self._obj(*args, **kwargs)", "calls are not forwarded with all "
             "arguments / the result is dropped", e.loc(cm, cm.node) if cm else None)
-    R.floor("R-WRAP-DISPATCH", 5)
+    # ---- polarity (scenario obligations)
+    from . import scenario as SC
+    pg = e.cfg(pub)
+    isclass = lambda x: isinstance(x, ast.Call) and norm(x.func).endswith("isclass")
+    ret_cls = lambda n: n.kind == "stmt" and isinstance(n.ast, ast.Return) and isinstance(n.ast.value, ast.Name) and n.ast.value.id in {c.name.split(".")[-1] for c in nested}
+    ret_inst = lambda n: n.kind == "stmt" and isinstance(n.ast, ast.Return) and isinstance(n.ast.value, ast.Call) and disp.qualname in e.callees_of(n.ast.value)
+    SC.must(e, R, "R-WRAP-DISPATCH", pub, "a class is wrapped", [(isclass, "T")], ret_cls, "returns the generated wrapper class", "wrapping a class returns None / an instance wrapper around the class object")
+    SC.never(e, R, "R-WRAP-DISPATCH", pub, "a class is wrapped", [(isclass, "T")], ret_inst, "the instance path", "a class is wrapped like an instance: calling it builds an unwrapped object")
+    SC.must(e, R, "R-WRAP-DISPATCH", pub, "an instance / function is wrapped", [(isclass, "F")], ret_inst, "returns the instance wrapper chosen by the callable() dispatch",
+            "wrapping an object returns nothing or a class")
+    ga = base.methods.get("__getattr__")
+    if ga is None:
+        raise AnalysisError("wrapper: __getattr__ not found")
+    gg = e.cfg(ga)
+    ap = ga.params[1]
+
+    def reserved(val):
+        def ev(x):
+            if isinstance(x, ast.Compare) and len(x.ops) == 1 and isinstance(x.ops[0], (ast.In, ast.NotIn)) and isinstance(x.left, ast.Name) and x.left.id == ap:
+                return val == isinstance(x.ops[0], ast.In)
+            return None
+        return ev
+    deleg = lambda n: n.kind == "stmt" and isinstance(n.ast, ast.Return) and isinstance(n.ast.value, ast.Call) and norm(n.ast.value.func) == "getattr" \
+        and len(n.ast.value.args) == 2 and norm(n.ast.value.args[0]) == f"{ga.params[0]}._obj" and isinstance(n.ast.value.args[1], ast.Name) and n.ast.value.args[1].id == ap
+    SC.must(e, R, "R-WRAP-DISPATCH", ga, "an attribute of the wrapped object is looked up", [], deleg, "forwards the lookup to the wrapped object",
+            "the wrapper does not expose the attributes of the object it wraps (or recurses forever)", evaluators=[reserved(False)])
+    SC.never(e, R, "R-WRAP-DISPATCH", ga, "one of the wrapper's own fields is missing (half-built / unpickling)", [], deleg, "a lookup on self._obj",
+             "infinite recursion: looking up `_obj` through `self._obj` calls __getattr__ again", evaluators=[reserved(True)])
+    R.floor("R-WRAP-DISPATCH", 10)
 
 
 def r_wrap_fields(e, R):
